@@ -64,7 +64,7 @@ Mil1750Decode(bits, order) ==
     IN IF FirstOne(mb) = 0 THEN TFlt("zero", FALSE, <<>>, 0)
        ELSE TFlt("fin", neg, StripTrailing(StripLeading(mag)), e - 23 + TrailingZeros(mag))
 
-Decode(kind, bits, enc, order) ==
+NumDecode(kind, bits, enc, order) ==
     CASE kind = "int" -> IntDecode(bits, enc, order)
       [] kind = "ieee" -> IeeeDecode(bits, order)
       [] kind = "mil" -> Mil1750Decode(bits, order)
